@@ -12,7 +12,7 @@ def leg(scen, flav, runs, workers, det, rt, maxs=None, extra=None):
     return {"scenario": scen, "flavour": flav, "args": a}
 
 CARDS_ASSUME = [
- "discrete-log card encoding (Schnorr group with random or canonical g, quadratic-residue group); the Schindelhauer quadratic-residuosity encoding is not driven by this scenario",
+ "the cards scenario drives the discrete-log card encoding (Schnorr group with random or canonical g, quadratic-residue group); the Schindelhauer quadratic-residuosity encoding is driven for C01/C02 by the qrcards scenario (openings with each player's own secret key, no interactive residuosity proofs)",
  "small groups (384..768-bit p, 160..200-bit q) and challenge lengths 16..64 so that thousands of sessions fit in a check; the library takes all sizes at run time",
  "false statements are realised as an edited public input on the verifier's side (the prover runs the unmodified library code on the true statement), never as prover-side calls that would trip the library's own asserts",
  "asserted transcript mutations: value+1, 0, swap with the next line of the same direction, +1 on an embedded number of a structured line, and value+q / value+p only at positions where the verifier code states the range (responses of the equality-of-logarithm proofs, elements of the decryption proof); other out-of-range representatives are not asserted",
@@ -20,13 +20,13 @@ CARDS_ASSUME = [
 
 P = {}
 P["C01"] = dict(level="exploration", design="DESIGN.md 7.7", assumptions=CARDS_ASSUME + ["the 'missing share' clause is asserted for cards that were masked at least once (an open card has c_1 = 1 and is public)"],
- quick=[leg("cards","plain",5000,16,16,120), leg("cards","asan",700,10,8,240)],
- thorough=[leg("cards","plain",400000,16,128,120,1000), leg("cards","asan",20000,10,32,240,500)],
+ quick=[leg("cards","plain",5000,16,16,120), leg("cards","asan",700,10,8,240), leg("qrcards","plain",8000,16,16,120), leg("qrcards","asan",2000,10,8,120)],
+ thorough=[leg("cards","plain",400000,16,128,120,1000), leg("cards","asan",20000,10,32,240,500), leg("qrcards","plain",800000,16,128,120,400), leg("qrcards","asan",60000,10,32,120,300)],
  text="Seeded k-player tables (k=2..7, 1..7 type bits, three group kinds, timing protection on/off) run masking chains of any length by any players and open cards with the real share protocol between player instances; the opened type is compared with a reference model, and openings with one contributor missing must give the invalid-type sentinel.",
  note="trusted: harness reference model (vector of types), libgmp; opening shares travel over string streams (the decryption proof is one-way)")
 P["C02"] = dict(level="exploration", design="DESIGN.md 7.7", assumptions=CARDS_ASSUME + ["all n! permutations are not enumerated; sizes 1..24 sampled, chains of shuffles by several players"],
- quick=[leg("cards","plain",5000,16,16,120), leg("cards","asan",700,10,8,240)],
- thorough=[leg("cards","plain",400000,16,128,120,1000), leg("cards","asan",20000,10,32,240,500)],
+ quick=[leg("cards","plain",5000,16,16,120), leg("cards","asan",700,10,8,240), leg("qrcards","plain",8000,16,16,120), leg("qrcards","asan",2000,10,8,120)],
+ thorough=[leg("cards","plain",400000,16,128,120,1000), leg("cards","asan",20000,10,32,240,500), leg("qrcards","plain",800000,16,128,120,400), leg("qrcards","asan",60000,10,32,120,300)],
  text="Stacks with repeated types are shuffled and rotated by several players in sequence; the reference model applies the index vector of each stack secret and every card of the resulting stack is opened with the real protocol and compared; every generated secret is checked to be a bijection (a shift by exactly the reported offset for rotations) and a secret with a repeated index must be refused on import.",
  note="trusted: harness reference model, libgmp")
 P["C03"] = dict(level="exploration", design="DESIGN.md 7.7", assumptions=CARDS_ASSUME + ["Rabin key validity proofs are not driven (pure function of a key); the coin-flipping sub-protocol is judged under C17 and runs inside the public-coin variants here"],
